@@ -101,8 +101,9 @@ class Evaluator:
                 them are atoms 'this.a.b'.
     """
 
-    def __init__(self, env=None, const_of=None, func_of=None, this_names=("this",), depth=0, strip_parent=True):
+    def __init__(self, env=None, const_of=None, func_of=None, this_names=("this",), depth=0, strip_parent=True, fold=None):
         self.env = dict(env or {})
+        self.fold = fold  # optional callable(ast) -> python number (raises on failure): folds constant sub-expressions
         self.const_of = const_of
         self.func_of = func_of
         self.this_names = set(this_names)
@@ -110,7 +111,7 @@ class Evaluator:
         self.opaque = []  # expressions that became opaque atoms (for reporting)
 
     def child(self, env, this_names=None):
-        e = Evaluator(env, self.const_of, self.func_of, this_names or self.this_names, self.depth + 1)
+        e = Evaluator(env, self.const_of, self.func_of, this_names or self.this_names, self.depth + 1, fold=self.fold)
         e.opaque = self.opaque
         return e
 
@@ -150,6 +151,21 @@ class Evaluator:
                 except KeyError:
                     pass
             return Term.atom(node.id)
+        if self.fold is not None and isinstance(node, (ast.Subscript, ast.Attribute, ast.Call)):
+            names = {n.id for n in ast.walk(node) if isinstance(n, ast.Name)}
+            if not (names & set(self.env)) and not (names & self.this_names):
+                try:
+                    v = self.fold(node)
+                    if isinstance(v, bool):
+                        return Term.const(int(v))
+                    if isinstance(v, (int, Fraction)):
+                        return Term.const(v)
+                    if isinstance(v, float):
+                        return Term.const(Fraction(repr(v)))
+                    if hasattr(v, "value") and isinstance(getattr(v, "value"), int) and hasattr(v, "cls"):
+                        return Term.const(v.value)
+                except Exception:
+                    pass
         if isinstance(node, ast.Attribute):
             d = dotted(node)
             if d is not None:
